@@ -48,6 +48,10 @@ func (C02) Generate(rng *rand.Rand, tier string, runIdx uint64) simkit.Plan {
 		"clock": simkit.Pick(rng, []string{"0s", "1h", "8760h"})}
 	p.Steps = append(p.Steps, Prelude(rng, g)...)
 	for len(p.Steps) < n {
+		if simkit.Chance(rng, 3) {
+			p.Steps = append(p.Steps, g.PeerSecretRotation()...)
+			continue
+		}
 		p.Steps = append(p.Steps, g.Next())
 	}
 	return p
@@ -74,6 +78,9 @@ func Prelude(rng *rand.Rand, g *Gen) []Step {
 	}
 	if simkit.Chance(rng, 30) {
 		out = append(out, Step{Op: "sysmeta.set", Key: "virtual-ips", Val: "true"})
+		if simkit.Chance(rng, 60) {
+			out = append(out, Step{Op: "sysmeta.set", Key: "virtual-ips-term-gateway", Val: "true"})
+		}
 	}
 	return out
 }
